@@ -62,9 +62,33 @@ func init() {
 			eof := fr.i.prog.ImportedPackage("io").Var("EOF")
 			return *fr.i.globalCell(eof)
 		}
-		doc := snapshotValue(d.docs[d.pos], 0)
+		doc := d.docs[d.pos]
+		if _, isNode := unwrapAny(doc).(*value); !isNode {
+			doc = snapshotValue(doc, 0)
+		}
 		d.pos++
 		target := a[1].(iface)
+		// a document registered as a *yaml.Node (vrtYamlNodeFile): hand it to the target's own
+		// UnmarshalYAML (the real code, e.g. ResetProcessor) or decode it generically
+		if node, ok := unwrapAny(doc).(*value); ok && node != nil {
+			if m := fr.i.methodByName(target.t, "UnmarshalYAML"); m != nil {
+				r := call(fr.i, fr, 0, m, []value{target.v, node})
+				return r
+			}
+			v, err := fr.i.decodeYamlNode(fr, node, 0)
+			if err != "" {
+				return fr.i.mkError(fr, err)
+			}
+			if pt, ok := target.t.(*types.Pointer); ok {
+				if _, ok := pt.Elem().Underlying().(*types.Interface); ok {
+					*(target.v.(*value)) = asAny(v)
+					return iface{}
+				}
+				if _, ok := pt.Elem().Underlying().(*types.Struct); ok {
+					doc = v
+				}
+			}
+		}
 		// *ResetProcessor: store into *p.target ; *interface{}: store directly
 		if pt, ok := target.t.(*types.Pointer); ok {
 			if n, ok := pt.Elem().(*types.Named); ok && n.Obj().Name() == "ResetProcessor" {
@@ -116,4 +140,128 @@ func cleanPath(p string) string {
 		p = p[:len(p)-1]
 	}
 	return p
+}
+
+
+// yaml.Node field access by name (the struct layout is read from the program's types)
+func (i *interpreter) nodeField(n *value, name string) value {
+	st := (*n).(structure)
+	nt := i.prog.ImportedPackage("gopkg.in/yaml.v3").Type("Node").Type().Underlying().(*types.Struct)
+	for k := 0; k < nt.NumFields(); k++ {
+		if nt.Field(k).Name() == name {
+			return st[k]
+		}
+	}
+	return nil
+}
+
+// decodeYamlNode converts a yaml.Node tree into plain Go values like (*yaml.Node).Decode(&any).
+func (i *interpreter) decodeYamlNode(fr *frame, n *value, depth int) (value, string) {
+	if n == nil {
+		return nil, ""
+	}
+	if depth > 100 {
+		return nil, "yaml: document nesting too deep or cyclic"
+	}
+	kind := asInt64(i.nodeField(n, "Kind"))
+	tag, _ := i.nodeField(n, "Tag").(string)
+	switch kind {
+	case 1: // DocumentNode
+		c := i.nodeField(n, "Content").([]value)
+		if len(c) == 0 {
+			return nil, ""
+		}
+		return i.decodeYamlNode(fr, c[0].(*value), depth+1)
+	case 16: // AliasNode
+		a, _ := i.nodeField(n, "Alias").(*value)
+		return i.decodeYamlNode(fr, a, depth+1)
+	case 2: // SequenceNode
+		out := []value{}
+		for _, c := range i.nodeField(n, "Content").([]value) {
+			v, e := i.decodeYamlNode(fr, c.(*value), depth+1)
+			if e != "" {
+				return nil, e
+			}
+			out = append(out, asAny(v))
+		}
+		return out, ""
+	case 4: // MappingNode
+		m := makeMap(types.Typ[types.String], 0).(*omap)
+		c := i.nodeField(n, "Content").([]value)
+		// merge keys first (lower priority), then own keys
+		for k := 0; k+1 < len(c); k += 2 {
+			key := i.nodeField(c[k].(*value), "Value")
+			if ks, ok := key.(string); ok && ks == "<<" {
+				v, e := i.decodeYamlNode(fr, c[k+1].(*value), depth+1)
+				if e != "" {
+					return nil, e
+				}
+				if mm, ok := v.(*omap); ok {
+					for _, en := range mm.live() {
+						m.insert(i, en.key, en.val)
+					}
+				}
+			}
+		}
+		for k := 0; k+1 < len(c); k += 2 {
+			key := i.nodeField(c[k].(*value), "Value")
+			if ks, ok := key.(string); ok && ks == "<<" {
+				continue
+			}
+			v, e := i.decodeYamlNode(fr, c[k+1].(*value), depth+1)
+			if e != "" {
+				return nil, e
+			}
+			m.insert(i, key, asAny(v))
+		}
+		return m, ""
+	case 8: // ScalarNode
+		val := i.nodeField(n, "Value")
+		switch tag {
+		case "!!null":
+			return nil, ""
+		case "!!bool":
+			return i.concStr(val) == "true", ""
+		case "!!int":
+			var x int
+			fmt.Sscanf(i.concStr(val), "%d", &x)
+			return x, ""
+		case "!!float":
+			var f float64
+			fmt.Sscanf(i.concStr(val), "%g", &f)
+			return f, ""
+		}
+		return val, ""
+	}
+	return nil, ""
+}
+
+func init() {
+	externals["(*gopkg.in/yaml.v3.Node).Decode"] = func(fr *frame, a []value) value {
+		n := a[0].(*value)
+		v, err := fr.i.decodeYamlNode(fr, n, 0)
+		if err != "" {
+			return fr.i.mkError(fr, err)
+		}
+		target := a[1].(iface)
+		if pt, ok := target.t.(*types.Pointer); ok {
+			if _, ok := pt.Elem().Underlying().(*types.Interface); ok {
+				*(target.v.(*value)) = asAny(v)
+				return iface{}
+			}
+		}
+		panic(pathAbort{"unsupported: yaml.Node.Decode into " + target.t.String()})
+	}
+	vrtIntrinsics["vrtYamlNodeFile"] = func(fr *frame, a []value) value {
+		fs := fr.i.ps.vfs()
+		id := len(fs.yamlDocs)
+		var docs []value
+		for _, d := range a[1].([]value) {
+			docs = append(docs, d) // *yaml.Node pointers
+		}
+		fs.yamlDocs = append(fs.yamlDocs, docs)
+		p := fr.i.concStr(a[0])
+		fs.files[cleanPath(p)] = vfile{content: fmt.Sprintf("%s%d\n", yamlMarker, id)}
+		return nil
+	}
 }
